@@ -569,6 +569,89 @@ class ResultKeeper:
                 self.kept = [k for k in self.kept if k[0] is not result]
 
 
+# --------------------------------------------------------------------------------------------
+# representations: the same valid input delivered another way
+# --------------------------------------------------------------------------------------------
+class FloatSub(float):
+    """A float subclass that is not one of the library's angle classes (the library's own DECAngle is a float subclass,
+    so subclasses of float are first-class citizens of its interfaces)."""
+    __slots__ = ()
+
+
+REP_KINDS = ('int', 'npint64', 'npfloat64', 'floatsub')
+ARRAY_REPS = ('fortran', 'readonly', 'view', 'int64', 'float-from-list')
+
+
+def choose_rep(rnd, p=0.06):
+    """None (plain Python floats, the ordinary way) or one of REP_KINDS."""
+    return rnd.choice(REP_KINDS) if rnd.random() < p else None
+
+
+def rep_wants_integers(rep):
+    return rep in ('int', 'npint64')
+
+
+def rep_value(rep, v):
+    """The same number in another Python representation.  Only plain floats (and plain ints for the numpy kinds) are
+    re-represented; angle objects, strings, None pass through.  With the integer kinds a value that is not integral stays
+    a float."""
+    if rep is None or type(v) not in (float, int) or isinstance(v, bool):
+        return v
+    import numpy as np
+    if type(v) is int:
+        # counts and zone numbers stay integers
+        return np.int64(v) if rep == 'npint64' else v
+    if rep in ('int', 'npint64'):
+        if float(v).is_integer() and abs(v) < 2 ** 53:
+            return int(v) if rep == 'int' else np.int64(int(v))
+        return v
+    if rep == 'npfloat64':
+        return np.float64(v)
+    if rep == 'floatsub':
+        return FloatSub(v)
+    raise ValueError(rep)
+
+
+def rep_values(rep, *vals):
+    return tuple(rep_value(rep, v) for v in vals)
+
+
+def choose_array_rep(rnd, p=0.15):
+    return rnd.choice(ARRAY_REPS) if rnd.random() < p else None
+
+
+def rep_array(rep, arr):
+    """The same matrix delivered another way: Fortran memory order, a read-only array (a library that writes into its
+    argument then raises instead of silently changing it), a non-contiguous view into a larger array, an integer dtype
+    when every entry is integral, or an array freshly built from nested lists."""
+    import numpy as np
+    if rep is None or not isinstance(arr, np.ndarray):
+        return arr
+    if rep == 'fortran':
+        return np.asfortranarray(arr.copy())
+    if rep == 'readonly':
+        b = arr.copy()
+        b.setflags(write=False)
+        return b
+    if rep == 'view':
+        big = np.full((arr.shape[0] * 2 + 1,) + tuple(n * 2 + 1 for n in arr.shape[1:]), 7.25)
+        sl = (slice(1, None, 2),) * arr.ndim
+        big[sl] = arr
+        return big[sl]
+    if rep == 'int64':
+        if arr.size and np.all(np.isfinite(arr)) and np.all(arr == np.round(arr)) and np.all(np.abs(arr) < 2 ** 53):
+            return arr.astype(np.int64)
+        return arr
+    if rep == 'float-from-list':
+        return np.array(arr.tolist(), dtype=float)
+    raise ValueError(rep)
+
+
+def spell(rnd, word):
+    """A word the library accepts in any capitalisation ('south' / 'South' / 'SOUTH')."""
+    return rnd.choice([word.lower(), word.capitalize(), word.upper()])
+
+
 _UNJUDGED_HUNG = set()
 
 
